@@ -119,7 +119,12 @@ class RF24MeshNoMaster(NetworkMixin):
         while not self._request_address(request_count):
             if time.monotonic() > end_timer:
                 return None
-            time.sleep((25 + ((total_requests + 1) * (request_count + 1)) * 2) / 1000)
+            # the share that depends on the node ID keeps 2 nodes that began together (and
+            # collided) from repeating their requests in lockstep
+            time.sleep(
+                (25 + ((total_requests + 1) * (request_count + 1)) * 2 + self._id / 4)
+                / 1000
+            )
             request_count = (request_count + 1) % 4
             total_requests = (total_requests + 1) % 10
         return self._addr
